@@ -42,15 +42,15 @@ def with_hydrogens_text(name):
 _CACHE = {}
 
 
-def baseline(name, keep):
-    key = (name, keep)
+def baseline(name, keep, extra_args=()):
+    key = (name, keep, tuple(extra_args))
     if key not in _CACHE:
         if keep:
             txt = with_hydrogens_text(name)
             _CACHE[key] = (txt, M.run(txt, args=['--keep-protons']))
         else:
             txt = M.text(name)
-            _CACHE[key] = (txt, M.run(txt))
+            _CACHE[key] = (txt, M.run(txt, args=list(extra_args)))
     return _CACHE[key]
 
 
@@ -59,9 +59,9 @@ def _centre(name):
     return [round(sum(c[i] for c in xs) / len(xs), 3) for i in range(3)]
 
 
-def mk_translate(name, axis, lo, hi, keep, rotation=None):
+def mk_translate(name, axis, lo, hi, keep, rotation=None, extra_args=()):
     def body(ctx):
-        txt, base = baseline(name, keep)
+        txt, base = baseline(name, keep, extra_args)
         k = ctx.int('shift_thousandths', int(round(lo * 1000)), int(round(hi * 1000)))
         t = k / 1000.0 if ctx.native else k / 1000
 
@@ -73,7 +73,7 @@ def mk_translate(name, axis, lo, hi, keep, rotation=None):
             for ax in axis:
                 v[ax] = v[ax] + t
             a.x, a.y, a.z = v
-        other = M.run(txt, args=['--keep-protons'] if keep else [], transform=tr)
+        other = M.run(txt, args=(['--keep-protons'] if keep else []) + list(extra_args), transform=tr)
         M.compare_heavy(ctx, 'pose', base, other)
         if keep:
             M.compare_results(ctx, 'pose(keep-protons)', base, other)
@@ -164,9 +164,10 @@ def mk_protonation_kernels(gi, case):
         cy = pts[0][2] * pts[1][0] - pts[0][0] * pts[1][2]
         cz = pts[0][0] * pts[1][1] - pts[0][1] * pts[1][0]
         if n == 2:
-            ctx.assume(Not(And(eq(cx, 0), eq(cy, 0), eq(cz, 0))))
+            ctx.assume(ge(cx * cx + cy * cy + cz * cz, 0.01))      # clearly not collinear
         else:
-            ctx.assume(Not(eq(cx * pts[2][0] + cy * pts[2][1] + cz * pts[2][2], 0)))
+            dd = cx * pts[2][0] + cy * pts[2][1] + cz * pts[2][2]
+            ctx.assume(Or(ge(dd, 0.1), le(dd, -0.1)))     # clearly not coplanar
 
         def build(points):
             conf = H.conformation()
@@ -230,6 +231,13 @@ def obligations(tier):
                                       claim_doc='bonds, groups, num_volume, buried, energy_volume identical; pKa and determinants identical (keep-protons) / '
                                                 'within %.2f (built hydrogens, positions within rounding of the shifted ones)' % TOL,
                                       max_paths=5000, wall_s=170 if tier == 'quick' else 1200, query_timeout_ms=20000))
+    # all hydrogens (incl. sp3 carbons) under --protonate-all: their set must be pose independent as well
+    for name in (['tri_ASP'] if tier == 'quick' else ['tri_ASP', 'tri_HIS', 'tri_LYS', 'lig_KNI']):
+        for ax, axn in axes[:3]:
+            obs.append(Obligation('O1-translation[%s,%s,protonate-all]' % (name, axn), mk_translate(name, ax, 0.0, 2.509, False, extra_args=['--protonate-all']), code=code_pipe,
+                                  bounds='%s with --protonate-all shifted by t = k/1000 along %s, t in [0,2.509]' % (name, axn),
+                                  claim_doc='as O1-translation; every constructed hydrogen (incl. those on sp3 carbons) within rounding of the shifted one', max_paths=5000,
+                                  wall_s=170 if tier == 'quick' else 1200))
     # shifts that put the structure across the origin (negative coordinates, cell index -1/0)
     for name in (['tri_ASP'] if tier == 'quick' else ['tri_ASP', 'tri_HIS', 'tri_ARG', 'tri_LYS']):
         cen = _centre(name)
